@@ -650,9 +650,13 @@ impl Kind {
 
 /// The iterator handed to the from_iter-style constructors: exact (a Vec), or with a size hint whose
 /// lower bound is below the real count (`filter`), which is just as legal.
-fn feed<T: 'static>(v: Vec<T>, inexact: bool) -> Box<dyn Iterator<Item = T>> {
+fn feed<T: 'static>(mut v: Vec<T>, inexact: bool) -> Box<dyn Iterator<Item = T>> {
     if inexact {
-        Box::new(v.into_iter().filter(|_| true))
+        // an exact part followed by a filtered part: the size hint is (4n/5, Some(n)) - a positive
+        // lower bound that is below the real count (for n < 5 the whole iterator is filtered)
+        let k = v.len() * 4 / 5;
+        let tail = v.split_off(k);
+        Box::new(v.into_iter().chain(tail.into_iter().filter(|_| true)))
     } else {
         Box::new(v.into_iter())
     }
